@@ -12,7 +12,7 @@ within its line range.  Anything else escaping guppylang is a violation:
   crash:<ExceptionType>:<operator>:<innermost /repo function>
   render-crash:<ExceptionType>:<operator>:<innermost /repo function>
   span-outside-source:<error title>
-  hang:<operator>                         (no result within HANG_S seconds)
+  hang:<operator>                         (no result within HANG_S seconds of CPU time)
 Exceptions raised by *Python itself* while exec'ing the mutant module (innermost frame
 in the mutant module, e.g. an annotation that Python cannot evaluate) are generator
 artefacts: counted (`python_define_errors`), never violations.  Mutants that are not
@@ -353,11 +353,26 @@ def _each(main_src, pred):
         yield tree, _nth(_fn(tree), pred, i), i
 
 
+def _used_names(fn):
+    used = set()
+    for st in fn.body:
+        for node in ast.walk(st):
+            if isinstance(node, ast.Name):
+                used.add(node.id)
+    return used
+
+
 def _ann_nodes(fn):
-    """Annotation expression slots: (owner, attribute) pairs, deterministic order."""
+    """Annotation expression slots: (owner, attribute) pairs, deterministic order.
+    Parameters of `main` that the body never mentions are not sites (retyping them only
+    yields accepted programs)."""
     out = []
+    used = _used_names(fn)
+    own = set(map(id, fn.args.posonlyargs + fn.args.args + fn.args.kwonlyargs))
     for node in ast.walk(fn):
         if isinstance(node, ast.arg) and node.annotation is not None:
+            if id(node) in own and node.arg not in used:
+                continue
             out.append((node, "annotation"))
         elif isinstance(node, ast.FunctionDef) and node.returns is not None:
             out.append((node, "returns"))
@@ -532,11 +547,26 @@ def m_wrap_nested(main_src):
 TYPE_ARG_ALTS = ["int", "qubit", "2", "0", "-1", "bool", "undefined_ty", "array[int, 2]", "'str'", "None"]
 
 
+def _unused_param_subscripts(fn):
+    used = _used_names(fn)
+    skip = set()
+    for a in fn.args.posonlyargs + fn.args.args + fn.args.kwonlyargs:
+        if a.arg not in used and a.annotation is not None:
+            skip.update(id(n) for n in ast.walk(a.annotation))
+    return skip
+
+
 def m_type_args(main_src):
-    pred = lambda n: isinstance(n, ast.Subscript)  # noqa: E731
-    n = _count(_fn(_parse_main(main_src)), pred)
+    def mkpred(fn):
+        skip = _unused_param_subscripts(fn)
+        return lambda n: isinstance(n, ast.Subscript) and id(n) not in skip
+    n = _count(_fn(_parse_main(main_src)), mkpred(_fn(_parse_main(main_src))))
+    fn_count = _fn(_parse_main(main_src))
+    n = _count(fn_count, mkpred(fn_count))
     for i in range(n):
-        node0 = _nth(_fn(_parse_main(main_src)), pred, i)
+        t0 = _parse_main(main_src)
+        node0 = _nth(_fn(t0), mkpred(_fn(t0)), i)
+        pred = None
         elts = node0.slice.elts if isinstance(node0.slice, ast.Tuple) else [node0.slice]
         for ei in range(len(elts)):
             old = ast.unparse(elts[ei])
@@ -544,7 +574,7 @@ def m_type_args(main_src):
                 if alt == old:
                     continue
                 tree = _parse_main(main_src)
-                node = _nth(_fn(tree), pred, i)
+                node = _nth(_fn(tree), mkpred(_fn(tree)), i)
                 if isinstance(node.slice, ast.Tuple):
                     node.slice.elts[ei] = _expr(alt)
                 else:
@@ -552,7 +582,7 @@ def m_type_args(main_src):
                 yield Mutant("type-arg", f"sub#{i}.{ei}:{old}->{alt}", _unparse(tree))
         # arity: drop / add a type argument
         tree = _parse_main(main_src)
-        node = _nth(_fn(tree), pred, i)
+        node = _nth(_fn(tree), mkpred(_fn(tree)), i)
         if isinstance(node.slice, ast.Tuple) and len(node.slice.elts) > 1:
             node.slice.elts.pop()
             if len(node.slice.elts) == 1:
@@ -709,12 +739,17 @@ def mutants_of(main_src, insertion: str):
 
 
 # -------------------------------------------------------------------------- oracle
-class _Hang(Exception):
+class _Hang(BaseException):      # BaseException: must not be swallowed by `except Exception`
     pass
 
 
 def _alarm(_sig, _frm):
     raise _Hang()
+
+
+def _arm(seconds):
+    """CPU-time (not wall-clock) watchdog, so that machine load cannot fake a hang."""
+    signal.setitimer(signal.ITIMER_VIRTUAL, seconds)
 
 
 def run_one(item) -> dict:
@@ -733,12 +768,12 @@ def run_one(item) -> dict:
         rec["what"] = str(e)[:100]
         return rec
     mod = None
-    old = signal.signal(signal.SIGALRM, _alarm)
-    signal.alarm(HANG_S)
+    old = signal.signal(signal.SIGVTALRM, _alarm)
+    _arm(HANG_S)
     try:
         set_experimental(exp)
         o, mod = gload.run_src(src, fn=entry)
-        signal.alarm(0)
+        _arm(0)
         fname = f"<verif:vprog{gload._COUNTER[0]}>"
         nlines = full.count("\n") + 1
         if o.kind == "ok":
@@ -774,13 +809,13 @@ def run_one(item) -> dict:
     except _Hang:
         rec["status"] = "hang"
         rec["key"] = f"hang:{op.split(':')[0]}"
-        rec["what"] = f"no result within {HANG_S}s"
+        rec["what"] = f"no result within {HANG_S}s of CPU time"
     except Exception as e:  # noqa: BLE001   harness bug
         rec["status"] = "harness"
         rec["what"] = f"{type(e).__name__}: {e}"[:300]
     finally:
-        signal.alarm(0)
-        signal.signal(signal.SIGALRM, old)
+        _arm(0)
+        signal.signal(signal.SIGVTALRM, old)
         if mod is not None:
             gload.unload(mod)
     return rec
